@@ -206,7 +206,13 @@ extern "C" int harness_main() {
 #ifdef WITH_JOBSERVER
   o.token_pool = verif_choice("jobserver_tokens", 3); o.run.start_may_fail = true;
 #endif
+#ifdef STAT_MAY_FAIL
+  g_stat_may_fail = true; o.run.start_may_fail = false;
+#endif
   InvocationResult r = invoke(o);
+#ifdef STAT_MAY_FAIL
+  if (g_stat_failed) verif_reach(r.rc == 0 ? "stat-failure-tolerated" : "stat-failed");      // (a failing stat of the lock file is tolerated: the outputs' own mtimes are recorded instead)
+#endif
   VERIF_ASSERT(r.parsed && r.added, "the scenario manifest parses and the targets are known");
   observe(r);
   VERIF_ASSERT(!r.stuck, "C06: ninja never gives up with 'stuck'");
